@@ -288,7 +288,7 @@ def check(tier, seed, replay=None):
                 break
             mode = 2 if rng.random() < 0.3 else 1
             text, text_ops, g, grc, gerr = run_case(ops, patches, mode, ids, path)
-            m, mrc, merr = run_oracle(text)
+            m, mrc, merr = run_oracle(render(with_observed_growth(text_ops, g)))
             stats['damage_cases'] += 1
             stats['by_kind'][kind] = stats['by_kind'].get(kind, 0) + 1
             stats['read_only_opens'] += 1 if mode == 2 else 0
